@@ -611,6 +611,48 @@ func c14Tail(c *Ctx) {
 			n++
 			off := term(s.Args()[1])
 			ok := strings.Contains(off, "NextRecord()#1") && strings.HasSuffix(off, ".Physical")
+			if !ok && strings.HasSuffix(off, ".Physical") {
+				// the scan may live in a same-package helper that returns the offset together with the read error
+				// (`scanToWALTail(reader)`): every return of the helper must hand back the offset of the failing NextRecord()
+				v := s.Args()[1]
+				for d := 0; d < 6; d++ {
+					switch x := v.(type) {
+					case *ssa.Field:
+						v = x.X
+						continue
+					case *ssa.UnOp:
+						v = x.X
+						continue
+					case *ssa.FieldAddr:
+						v = x.X
+						continue
+					case *ssa.Alloc:
+						if st := singleStore(x); st != nil {
+							v = st.Val
+							continue
+						}
+					}
+					break
+				}
+				if ex, isEx := v.(*ssa.Extract); isEx {
+					if call, isCall := ex.Tuple.(*ssa.Call); isCall {
+						if g := call.Call.StaticCallee(); g != nil && len(g.Blocks) > 0 && pkgRelOf(g) == pkgRelOf(f) {
+							all, k := true, 0
+							for _, r := range returnsOf(g) {
+								if ex.Index >= len(r.Results) {
+									all = false
+									continue
+								}
+								k++
+								if !strings.Contains(term(r.Results[ex.Index]), "NextRecord()#1") {
+									all = false
+								}
+							}
+							ok = all && k > 0
+						}
+					}
+				}
+			}
 			c.check(ok, "tail-tolerance", "recoverLatestWALTail → "+nm[strings.LastIndex(nm, ".")+1:], p.Pos(s.Pos()), "truncates at the offset reported together with the read error", "tail repair truncates at "+off+" instead of the offset returned with the failing NextRecord(): flushed records before the torn one could be cut off")
 		}
 		if n < 2 {
